@@ -320,9 +320,6 @@ func recordCall(c *ssa.Call, s state, res *Result, seen map[string]bool) {
 			held[id] = m
 		}
 	}
-	if len(held) == 0 {
-		return
-	}
 	var ks []string
 	for id, m := range held {
 		ks = append(ks, string(id)+m.String())
